@@ -34,14 +34,14 @@ CHUNK = 1
 def bounds(tier, seed):
     return {
         "paths": ["tdvp", "dmrg", "noisy"],
-        "autosave_positions": "(first, second) progress-call indices: (0,1), (1,3), (2,7)" + (", (0,2), (3,4), (4,8)" if tier == "thorough" else ""),
+        "autosave_positions": "(first, second) progress-call indices: (0,1), (1,3), (2,7)" if tier == "quick" else "every pair first < second <= 8 (36 pairs)",
         "crash_points": "before/after every FS event of autosave #2 + torn writes {0, 1, half, all-but-one}",
         "chained": "after recovery from a crash in autosave #2, autosave #3 is crashed at its first rename/replace event as well",
     }
 
 
 def cases(tier, seed):
-    pos = [(0, 1), (1, 3), (2, 7)] + ([(0, 2), (3, 4), (4, 8)] if tier == "thorough" else [])
+    pos = [(0, 1), (1, 3), (2, 7)] if tier == "quick" else [(a, b) for a in range(0, 8) for b in range(a + 1, 9)]
     for path in ("tdvp", "dmrg", "noisy"):
         for a, b in pos:
             yield {"path": path, "shape": "bent3", "kind": "dmm", "perm": None, "first": a, "second": b}
